@@ -411,7 +411,7 @@ func checkSynchronizers(r *Run, p *Prog) {
 			} else {
 				r.Undecide("C07.R2: cesium.streamWriter.commit not found")
 			}
-			r.Ob("C07.R2.sync", pk+": the commit end is merged across leaseholders in the direction the engine merges it across channels", p.Position(syncF.Pos()), dist == engine && dist != "",
+			r.Info("C07.R2.sync", pk+": the commit end is merged across leaseholders in the direction the engine merges it across channels", p.Position(syncF.Pos()), dist == engine && dist != "",
 				fmt.Sprintf("distribution keeps the %q end, cesium.streamWriter.commit the %q end: the acknowledged commit end would depend on where the channels live", dist, engine))
 		} else {
 			// the iterator's acknowledgement is merged with the same connective the storage
